@@ -2,7 +2,7 @@
 import random, json
 import core, sx, shapes
 from core import hbump
-from props import dcommon, dgeneric
+from props import dcommon, dgeneric, wiretie
 
 LEVEL = 'proof'
 PROP = 'C14'
@@ -73,6 +73,8 @@ def run(res, ctx):
                 r_out.corr['samples'].append({'request': rows[k][0][:300], 'impl': rows[k][1][:500]})
 
     explore(res, tier, seed)
+    # byte-exact tie of the hand-written / serde-derived codecs of the unordered diffs with the Lean wire model
+    wiretie.run(res, binp, tier, seed)
 
     def search():
         r2 = core.Result(PROP, tier, seed)
